@@ -6,6 +6,10 @@ import os
 VERIF = "/verif"
 
 CLAIMED = {
+    "C01": ("4 C01", "classification of the step records built by extract_contractions (element kinds, flag/argument/"
+            "permutation consistency, can_dot guard of the tensordot branch) against the executor's use of the unpacked "
+            "positions; convention analysis of the per-node recipes (axes pairing, operand order of the equation, "
+            "direction of the tensordot permutation); shared root-order and children-first rules"),
     "C02": ("4 C02", "ast/CFG cache-invalidation analysis: key registry + computed getter dependency graph, "
             "must-pass-through of reset_contraction_indices after node removal, root-order writer guard, who-may-write, "
             "memo-key carrier analysis of the compiled-contractor cache, purity of inplace=False transformations "
@@ -31,6 +35,10 @@ CLAIMED = {
     "C10": ("4 C10", "typestate of the depth-first traversal's ready set and guard of its yield; sibling cross-check of the "
             "recycled-id protocol (descending removal, positions before removal, append) over every pop/append loop; "
             "CFG pairing of single-assignment id counters with their uses; linear-form check of get_ssa_path's id"),
+    "C11": ("4 C11", "abstract interpretation of the batched-matmul planner's layout expressions into sequences of "
+            "index-group symbols (groups identified by their filling conditions) checked against the matmul contract; "
+            "direction analysis of every transposition tuple; stage/position agreement of the single-operand planner "
+            "and executor by construction/usage kinds; exception-type and normalisation discipline of tensordot's axes"),
     "C13": ("4 C13", "cache-key completeness/injectivity by def-use dependence, sibling TypeError fallback, purity and "
             "result-immutability of lru_cached parsers, array-taint of cached callables"),
     "C14": ("4 C14", "fingerprint determinism/coverage by dependence analysis, cache policy as CFG path properties, "
@@ -52,6 +60,7 @@ CLAIMED = {
 }
 
 LEVEL_TEXT = {
+    "C01": "conventions only: the record protocol between tree and executor is consistent (flag, argument kind, permutation, operand order, can_dot guard, preprocessing first), the recipes share one left/right convention and permutation direction, the root order is the declared output's and children are executed first; equality of the computed arrays with einsum is NOT decided",
     "C02": "for every function that can restructure or slice a tree (all sites, hence all histories through them) the cached per-node recipes are invalidated as the computed dependency graph requires; value equality itself is numerical and not decided",
     "C03": "the definitions of flops/size and the slice multiplicity of every reported total are read off the getters by def-use dependence (must-dependence on every path); the arithmetic on runtime sizes is not decided",
     "C04": "every attribute of a tree is copied safely, running totals are adjusted symmetrically by their owners only, and no slice-dependent figure is first computed after the sliced set changed — for all sites; integer arithmetic is not decided",
@@ -61,6 +70,7 @@ LEVEL_TEXT = {
     "C08": "the returned trial is the arg-min of the recorded scores on every schedule (each reported trial is compared, guarded update, once-per-trial bookkeeping) and recorded costs are refreshed after every in-place post-processing; cost values are not decided",
     "C09": "necessary conditions of optimality only: each objective name is minimised with a step cost whose derived signature equals the objective's definition, the per-subgraph memo keeps the better entry, the sieve skips only on the new score against a cap that grows every round, every bipartition size is enumerated, search_outer is honoured; that the result is the global minimum is NOT decided",
     "C10": "conventions only: every emitted path is produced children-first, every implementation of the recycled-id format removes operands in descending order and appends the result, every single-assignment id counter starts at the number of inputs and advances once per emitted step on every path; equality of round trips is NOT decided",
+    "C11": "layout agreement only: prepared operands, reshape groups and produced output order satisfy (B,M,K)x(B,K,N)->(B,M,N) for every equation, every transposition tuple has the right direction, planner and executor of single-operand einsum agree on stage order, tensordot accepts integer and negative axes; numerical equality with the reference is NOT decided",
     "C13": "cache keys are complete and injective, memoised functions pure, cached callables stateless — for every cache site and call site in the package; numeric equality of cached and uncached results is not decided",
     "C14": "fingerprints are deterministic, covering and position-preserving, and the lookup/run/overwrite policy holds on every CFG path of the reusable optimizer; that a rebuilt tree equals the searched one is not decided",
     "C15": "no kill point can leave a partial file under an entry name because every durable write is temp-sibling + close + atomic replace, and a corrupt entry reads as absent; filesystem behaviour is assumed (POSIX rename)",
@@ -72,10 +82,6 @@ LEVEL_TEXT = {
 }
 
 NA = {
-    "C01": "numerical equality with einsum for all networks/trees/options is arithmetic over runtime index strings and "
-           "array data; the only structural clause (root axis order sourced from the declared output) is decided under C02-ROOT",
-    "C11": "value semantics of a reshape/transpose/matmul plan over runtime shapes; the only structural clause (purity of "
-           "the lru_cached planners) is decided under C13-MEMO",
     "C12": "conformance with numpy.einsum's grammar and broadcasting over all call forms is a specification question over "
            "runtime strings and shapes; order determinism of implicit outputs is covered by C17-HASHORD",
 }
